@@ -1,5 +1,6 @@
 import Xp.Proofs.C20Ex
 import Xp.Proofs.C20Peer
+import Xp.Proofs.C20World
 import Xp.Gen.C20Init
 /-
 C20 property theorems: initialisation is idempotent and never duplicates or
@@ -357,9 +358,9 @@ What survives and what does not:
   the intended behaviour; what holds instead is (c) `rerun_after_peer_abort_converges`;
 * `step_idempotent` / `init_idempotent` / `ca_bundle_injected` / `completed_steps_stay_done` speak about
   interference-free runs and are unaffected as stated; read with a peer acting during the second run they
-  fail trivially (the peer's writes change the store). `defaults_untouched`, `no_second_package`,
-  `hypotheses_survive_any_abort` do not survive a peer that touches packages / defaults; the interference
-  modelled in the differential harness is confined to secrets. -/
+  fail trivially (the peer's writes change the store). `defaults_untouched` and `no_second_package` as stated do
+  not survive a writer that touches packages / defaults; their replacements are in the LAST section
+  (`defaults_untouched_under_interference`, `no_second_package_under_interference`). -/
 
 /-- The interference-free semantics is the special case of no peer: every theorem above is a theorem
 about `runP … Env.none`. -/
@@ -518,5 +519,119 @@ example :
     findSecret (runP stdGen pxSteps pxRogue Plan.allOk 100 pxWithCA).1 "crossplane-root-ca" ≠
       findSecret pxWithCA "crossplane-root-ca" := by
   decide
+
+/-! ### other writers on every object, every class of error
+
+The environment of the previous section may do ANYTHING to the store (`Env Store`), not only write secrets: the
+differential harness lets a concurrent initialiser of the same or of another release (complete, or crashed
+half-way) and a user / another controller / the garbage collector create, edit and delete packages, CRDs, webhook
+configurations, custom resources, the Lock, the default objects and unprotected secrets right before any of our
+calls. And a refused call is answered with an error of ANY class: `semK e` (NotFound / AlreadyExists / Conflict /
+everything else: Forbidden, Invalid, Unauthorized, TooManyRequests, a timeout, a Temporary() transport error, a
+context deadline) – or, for the guarantees that do not depend on it, with ANY reply whatsoever (`semAny er`:
+even a made-up success or a made-up object). `sem` is `semK .other`. -/
+
+/-- the semantics of all earlier theorems is the case "an error of no particular class" -/
+theorem error_class_other_is_plain_sem : semK .other = sem := rfl
+
+/-- (a), for every class of error and every made-up reply: an existing CA and existing certificates are never
+overwritten by our own calls – whatever refused calls are answered with, whatever any other writer does. -/
+theorem own_writes_never_clobber_any_reply (er : Outcome → Req → Resp) (g : Generator) (steps : List Step)
+    (env : Env Store) (plan : Plan) (n : Nat) (s : Store) :
+    ∀ x ∈ ownE (semAny er) env plan 0 (runSteps g steps n 0) s,
+      KeptFrom (caNames steps) x.1 (exec x.1 x.2).1 ∧
+      ((exec x.1 x.2).1 ≠ x.1 →
+        (∀ new, x.2 = .createSecret new → findSecret x.1 new.name = none) ∧
+        (∀ old new, x.2 = .updateSecret old new →
+          findSecret x.1 new.name = some old ∧ ¬ Protected (caNames steps) old)) :=
+  fun x hx => ⟨own_step_keeps_any er g steps env plan n s x hx, own_write_shape_any er g steps env plan n s x hx⟩
+
+/-- `ca_kept` / `certs_kept` under interference, for every class of error and every made-up reply. -/
+theorem existing_tls_kept_any_reply (er : Outcome → Req → Resp) (g : Generator) (steps : List Step) (env : Env Store)
+    (henv : PeerKeeps (caNames steps) env) (plan : Plan) (n : Nat) (s : Store) :
+    KeptFrom (caNames steps) s (runE (semAny er) env plan 0 (runSteps g steps n 0) s).1 :=
+  kept_under_interference_any er g steps env henv plan n s
+
+/-- Default objects that already exist are left untouched – the guarantee of EVERY call the initializer can
+issue, on EVERY store (the one the other writers left at that moment): an existing Lock / default StoreConfig /
+default DeploymentRuntimeConfig, every custom resource and the undeclared fields of every existing package, CRD
+and webhook configuration are the same after the call. (The call vocabulary `Req` is tied to the real run call by
+call: an Update / Delete of such an object has no counterpart and shows as a difference.) -/
+theorem every_call_leaves_defaults_untouched (s : Store) (r : Req) : Untouched s (exec s r).1 :=
+  exec_untouched r (untouched_refl s)
+
+/-- `defaults_untouched` under interference: if the other writers leave the default objects and foreign fields
+alone too (`PeerUntouches`; true of a peer that is an initialiser), they are what they were whenever the run ends –
+under every fault plan, for every class of error and every made-up reply. -/
+theorem defaults_untouched_under_interference (er : Outcome → Req → Resp) (g : Generator) (steps : List Step)
+    (env : Env Store) (henv : PeerUntouches env) (plan : Plan) (n : Nat) (s : Store) :
+    Untouched s (runE (semAny er) env plan 0 (runSteps g steps n 0) s).1 :=
+  untouched_under_interference er env henv plan 0 _ s
+
+theorem initialiser_peer_leaves_defaults_untouched (g : Generator) (steps : List Step) (n k0 : Nat) :
+    PeerUntouches (peerInit g steps n k0) :=
+  peerInit_untouches g steps n k0
+
+/-- `no_second_package` under interference: "already installed" is judged against what OUR List call of that kind
+returned – the store at the moment of that call, after whatever another writer did before it and regardless of
+what it does afterwards (a package somebody installs between our List and our Create is a race nobody can win).
+For every interference, fault plan and class of error `e`: every package write of the installer (Create or Patch)
+for a reference `r` goes to object name `n` such that, if a package of that kind with the source of `r` was
+installed at the moment of our List, `n` is the name of a package that existed at that moment – never a second
+name. (`e = .notFound`: a List refused with NotFound – "the kind is not served" – counts as an empty list.) -/
+theorem no_second_package_under_interference (e : Err) (env : Env Store) (plan : Plan) (s : Store) (p c f : List Img) :
+    ∀ x ∈ ownE (semK e) env plan 0 (installStep p c f) s, ∀ kd n r, x.2.pkgTarget = some (kd, n, r) →
+      e = .notFound ∨
+      ∃ y ∈ ownE (semK e) env plan 0 (installStep p c f) s, y.2 = .listPkgs kd ∧
+        (InstalledSrc y.1 kd r.src → ∃ q0 ∈ y.1.pkgs, q0.kind = kd ∧ q0.name = n) :=
+  install_no_second_at_list_time e env plan 0 s p c f
+
+/-- Core CRDs and webhook configurations carry the CURRENT CA bundle, under interference: every caBundle our run
+writes into a CRD (webhook conversion) or a webhook configuration is tls.crt – non-empty – of the webhook TLS
+secret as it is stored AT THE MOMENT of that write, and that secret still holds exactly that certificate when the
+run ends. For every fault plan, every class of error, every interference that never rewrites a protected secret
+(`PeerKeeps`), provided the webhook TLS secret is not the CA secret. -/
+theorem ca_bundle_current_at_every_write (e : Err) (g : Generator) (steps : List Step) (env : Env Store)
+    (henv : PeerKeeps (caNames steps) env) (hrefs : ∀ ref ∈ bundleRefs steps, ref ∉ caNames steps)
+    (plan : Plan) (n : Nat) (s : Store) :
+    ∀ x ∈ ownE (semK e) env plan 0 (runSteps g steps n 0) s, ∀ cb ∈ x.2.bundles,
+      ∃ ref ∈ bundleRefs steps, ∃ sec, findSecret x.1 ref = some sec ∧ sec.crt = cb ∧ cb ≠ .empty ∧
+        findSecret (runE (semK e) env plan 0 (runSteps g steps n 0) s).1 ref = some sec :=
+  own_bundles_current e g steps env henv hrefs plan n s
+
+/-- for the step list of core.initCommand.Run the bundle comes from `cfg.server` -/
+theorem init_bundle_refs (cfg : Cfg) : ∀ ref ∈ bundleRefs (initSteps cfg), ref = cfg.server := by
+  rw [bundleRefs_init]
+  split <;> simp
+
+/-! #### non-vacuity: concrete other writers and error classes -/
+
+/-- Somebody installs the requested provider as `their-own` BEFORE our List: it is updated in place. Somebody does
+so right AFTER our List (before our Get): the race is lost, the provider exists twice – `no_second_package` as
+stated for interference-free runs fails, the list-time statement holds. -/
+example :
+    let req : List Img := [⟨wxR1.str, some wxR1⟩]
+    (runE sem (wxUser 0) Plan.allOk 0 (installStep req [] []) wxEmpty).1.pkgs.map (fun p => (p.name, p.raw, p.extra)) =
+      [("their-own", wxR1.str, 2)] ∧
+    (runE sem (wxUser 3) Plan.allOk 0 (installStep req [] []) wxEmpty).1.pkgs.map (fun p => (p.name, p.raw)) =
+      [("their-own", wxR0.str), ("crossplane-provider-aws", wxR1.str)] := by
+  decide
+
+/-- Error classes are told apart where the code tells them apart: a Get refused with NotFound makes the Lock
+step Create (the Lock exists: AlreadyExists, the step fails and nothing changes); refused with any other class
+the step fails at once; a Create of the default StoreConfig refused with AlreadyExists is tolerated, refused
+with any other class it is an error. -/
+example :
+    let s : Store := { wxEmpty with lock := some 3 }
+    (callLogE (semK .notFound) Env.none (Plan.at 0 .fail) 0 lockStep s).map (fun x => reqLineTag x.1) = ["getLock", "createLock"] ∧
+    (runE (semK .notFound) Env.none (Plan.at 0 .fail) 0 lockStep s) = (s, some (Res.err "lock: create")) ∧
+    (callLogE (semK .other) Env.none (Plan.at 0 .fail) 0 lockStep s).map (fun x => reqLineTag x.1) = ["getLock"] ∧
+    (runE (semK .alreadyExists) Env.none (Plan.at 0 .fail) 0 (scStep "ns") wxEmpty) = (wxEmpty, some Res.ok) ∧
+    (runE (semK .other) Env.none (Plan.at 0 .fail) 0 (scStep "ns") wxEmpty) = (wxEmpty, some (Res.err "sc")) := by
+  decide
+
+/-- the relies of this section are satisfiable: no interference; a peer that is an initialiser -/
+example : PeerUntouches Env.none ∧ PeerUntouches (peerInit stdGen pxSteps 500 1) :=
+  ⟨fun _ s => untouched_refl s, peerInit_untouches _ _ _ _⟩
 
 end Xp.C20
